@@ -217,14 +217,18 @@ impl<'a> GExec<'a> {
                 digest: DigestVar::default(),
             };
             self.sweep_ctr += 1;
-            self.do_validate_proof(ctx, gw, &spec, &DataSpec::Random(0x5eed_0000 + self.sweep_ctr));
+            // every other sweep presents the very same proof over the very same data as
+            // an earlier sweep did for this set (a stale re-submission, F2); the others
+            // use fresh data
+            let tag: u32 = if self.sweep_ctr % 2 == 0 { 0x5eed_0000 + self.sweep_ctr } else { 0x0ead_0000 + e as u32 };
+            self.do_validate_proof(ctx, gw, &spec, &DataSpec::Random(tag));
             if via_approve && !ctx.stopped() {
                 let m = MMsg {
                     source_chain: "c08".to_string(),
-                    message_id: format!("sweep-{}", self.sweep_ctr),
+                    message_id: format!("sweep-{:x}", tag),
                     source_address: "s".to_string(),
                     contract: addr_bytes(&self.principals[4]),
-                    payload_hash: keccak(&self.sweep_ctr.to_le_bytes()),
+                    payload_hash: keccak(&tag.to_le_bytes()),
                 };
                 let d = self.principals[4].clone();
                 self.approve_resolved(ctx, g, &spec, &[m], &[d], None, &["C08", "C01"]);
